@@ -2,6 +2,7 @@ package checks
 
 import (
 	"reflect"
+	"time"
 
 	"bytes"
 	"encoding/json"
@@ -356,7 +357,7 @@ func c08Gates(m *MClaims, c psatoken.IClaims, kp keyPair, st *Stats, extRuleBrok
 
 func TestC08_Gates(t *testing.T) {
 	st := NewStats("C08", "TestC08_Gates", "rapid: valid and invalid claims-sets of both profiles (C01's class-vector generator, as struct literals), and instances of a registered extension profile whose own Validate() rule is met or broken, through the seven validating entry points (SetClaims, ValidateAndEncode CBOR/JSON, ValidateAndSign, DecodeAndValidate CBOR/JSON(+deprecated alias)/COSE): each fails iff Validate() fails, emits/attaches nothing on failure, and equals its non-validating sibling on success. Non-trivial = invalid set whose defect is not merely a missing lifecycle; distinct = class vector")
-	st.Require = []string{"valid", "invalid", "gate=SetClaims", "gate=EncodeCBOR", "gate=EncodeJSON", "gate=ValidateAndSign", "gate=DecodeCBOR", "gate=DecodeJSON", "gate=DecodeCOSE", "invalid-encodable", "extension-profile", "extension-own-rule-broken", "impl=by-value", "impl=no-instance-id", "impl=sloppy-json", "impl=unregistered-extension"}
+	st.Require = []string{"valid", "invalid", "gate=SetClaims", "gate=EncodeCBOR", "gate=EncodeJSON", "gate=ValidateAndSign", "gate=DecodeCBOR", "gate=DecodeJSON", "gate=DecodeCOSE", "invalid-encodable", "extension-profile", "extension-own-rule-broken", "impl=by-value", "impl=no-instance-id", "impl=sloppy-json", "impl=unregistered-extension", "impl=stand-alone-rich"}
 	defer st.Flush(t)
 	registerMu.Lock()
 	defer registerMu.Unlock()
@@ -366,6 +367,9 @@ func TestC08_Gates(t *testing.T) {
 		t.Fatalf("VERIF-INFRA: %v", err)
 	}
 	if err := psatoken.RegisterProfile(noInstIDProfile{}); err != nil {
+		t.Fatalf("VERIF-INFRA: %v", err)
+	}
+	if err := psatoken.RegisterProfile(freeFormProfile{}); err != nil {
 		t.Fatalf("VERIF-INFRA: %v", err)
 	}
 	rapid.Check(t, func(t *rapid.T) {
@@ -384,8 +388,30 @@ func TestC08_Gates(t *testing.T) {
 				return
 			}
 			var oc psatoken.IClaims
-			what := rapid.SampledFrom([]string{"by-value", "no-instance-id", "no-instance-id", "sloppy-json", "unregistered-extension"}).Draw(t, "impl")
+			what := rapid.SampledFrom([]string{"by-value", "no-instance-id", "no-instance-id", "sloppy-json", "unregistered-extension", "stand-alone-rich"}).Draw(t, "impl")
 			switch what {
+			case "stand-alone-rich":
+				// a stand-alone claims type without codec methods: the
+				// library's own CBOR / JSON modes encode it by reflection, and
+				// its claims (a time, a free-form value and map) are of types
+				// whose encoding depends on the mode's options
+				f := freeFormProfile{}.GetClaims().(*FreeFormClaims)
+				if genBool.Draw(t, "rich.time") {
+					ts := time.Unix(rapid.SampledFrom([]int64{0, 1, 1700000000, -1, 1 << 33}).Draw(t, "rich.ts"), 0).UTC()
+					f.IssuedAt = &ts
+				}
+				switch rapid.IntRange(0, 3).Draw(t, "rich.free") {
+				case 1:
+					f.Free = []any{uint64(1), "x", []byte{1, 2}}
+				case 2:
+					f.Free = map[string]any{"k": []byte{7}}
+				case 3:
+					f.Submods = map[string]any{"sub": map[any]any{uint64(265): "x"}}
+				}
+				if rapid.IntRange(0, 3).Draw(t, "rich.noprofile") == 0 {
+					f.EatProfile = nil // mandatory claim missing: invalid
+				}
+				oc = f
 			case "by-value":
 				oc = ByValueClaims{lit.(*psatoken.P2Claims)}
 			case "sloppy-json":
@@ -520,14 +546,17 @@ func overwriteInPlace(dst, src psatoken.IClaims) bool {
 }
 
 func TestC08_GatesInContext(t *testing.T) {
-	st := NewStats("C08", "TestC08_GatesInContext", "rapid: the gates exercised where stale state exists. (a) ValidateAndSign vs Sign on two Evidence objects brought into the same prior state {fresh, after Sign, after ValidateAndSign, after UnmarshalCOSE, after a failed sign, after a failed decode}: they succeed/fail together when the claims are valid, ValidateAndSign fails iff Validate() fails, payload and protected header equal; (b) a claims object is attached with SetClaims (or validated/encoded once) and then overwritten IN PLACE with an invalid (or, from invalid, a valid) claims-set of the same type: SetClaims / ValidateAndEncode CBOR+JSON / ValidateAndSign called again must follow the CURRENT content: fail and emit nothing iff Validate() fails now; (c) every gate called twice in a row gives the same outcome. Non-trivial = prior state not fresh, or an in-place flip of validity; distinct = prior + flip + class vector")
+	st := NewStats("C08", "TestC08_GatesInContext", "rapid: the gates exercised where stale state exists. (a) ValidateAndSign vs Sign on two Evidence objects brought into the same prior state {fresh, after Sign, after ValidateAndSign, after UnmarshalCOSE, after a failed sign, after a failed decode}: they succeed/fail together when the claims are valid, ValidateAndSign fails iff Validate() fails, payload and protected header equal; (b) a claims object is attached with SetClaims (or validated/encoded once) and then overwritten IN PLACE with an invalid (or, from invalid, a valid) claims-set of the same type: SetClaims / ValidateAndEncode CBOR+JSON / ValidateAndSign called again must follow the CURRENT content: fail and emit nothing iff Validate() fails now; (c) every gate called twice in a row gives the same outcome; (d) afterwards - ValidateAndSign refused or not - SetClaims of a valid set on that Evidence succeeds and attaches it, ValidateAndSign then signs exactly its encoding, and the Evidence decodes its own token (a call that never returns is detected by a goroutine inspection, see stall_test.go). Non-trivial = prior state not fresh, or an in-place flip of validity; distinct = prior + flip + class vector")
 	st.Require = []string{"prior=signed", "prior=decoded", "prior=failed-sign", "flip=valid->invalid", "flip=invalid->valid"}
 	defer st.Flush(t)
+	stall := watchStalls("C08", "TestC08_GatesInContext")
+	defer stall.Stop()
 	rapid.Check(t, func(t *rapid.T) {
 		p := drawProf(t)
 		alg := rapid.SampledFrom(fastAlgs).Draw(t, "alg")
 		kp := keyFor(alg, rapid.IntRange(0, 3).Draw(t, "key"))
 		prior := rapid.SampledFrom([]string{"fresh", "signed", "vsigned", "decoded", "failed-sign", "failed-decode"}).Draw(t, "prior")
+		stall.Begin("Evidence in state " + prior + "; claims assigned; Sign / ValidateAndSign")
 		m := GenAny(t, p)
 		if genBool.Draw(t, "forceValid") {
 			m = GenValid(t, p, false)
@@ -566,6 +595,28 @@ func TestC08_GatesInContext(t *testing.T) {
 		_, err2 := evV.ValidateAndSign(kp.Signer())
 		if (err2 == nil) != (err == nil) {
 			t.Fatalf("C08 violated: a second ValidateAndSign gives a different outcome (%v then %v)", err, err2)
+		}
+		// (d) the Evidence stays usable after its gates were used, refused or
+		// not: attaching a valid set works (as plain assignment would) and
+		// the gates then let it through
+		{
+			m3 := GenValid(t, p, false)
+			c3, _ := m3.BuildLiteral()
+			stall.Beat("SetClaims(valid set) on the Evidence (state %q) whose ValidateAndSign returned err=%v twice", prior, err)
+			if e := evV.SetClaims(c3); e != nil || evV.Claims != c3 {
+				t.Fatalf("C08 violated: SetClaims of a valid set on an Evidence (state %q) whose ValidateAndSign had returned err=%v: err=%v, attached=%v", prior, err, e, evV.Claims == c3)
+			}
+			stall.Beat("ValidateAndSign after that SetClaims")
+			tk3, e3 := evV.ValidateAndSign(kp.Signer())
+			want3, _ := psatoken.ValidateAndEncodeClaimsToCBOR(c3)
+			p3, ok3 := icose.Split(tk3)
+			if e3 != nil || !ok3 || !bytes.Equal(p3.Payload, want3) {
+				t.Fatalf("C08 violated: after SetClaims of a valid set on a used Evidence (state %q, earlier ValidateAndSign err=%v) ValidateAndSign err=%v / payload is not the encoding of the attached claims", prior, err, e3)
+			}
+			stall.Beat("UnmarshalCOSE of that token into the same Evidence")
+			if e := evV.UnmarshalCOSE(tk3); e != nil {
+				t.Fatalf("C08 violated: the Evidence cannot decode the token it just signed: %v", e)
+			}
 		}
 		// (b) in-place flip
 		m2 := GenAny(t, p)
@@ -646,9 +697,19 @@ func c08Differential(c psatoken.IClaims, kp keyPair) string {
 	}
 	e1, e2 := &psatoken.Evidence{Claims: c}, &psatoken.Evidence{Claims: c}
 	ptok, psErr := e1.Sign(kp.Signer())
-	_, vsErr := e2.ValidateAndSign(kp.Signer())
+	vtok, vsErr := e2.ValidateAndSign(kp.Signer())
 	if (vsErr == nil) != (valid && psErr == nil) {
 		return fmt.Sprintf("ValidateAndSign err=%v vs Sign err=%v, valid=%v", vsErr, psErr, valid)
+	}
+	if vsErr == nil {
+		pp, ok1 := icose.Split(ptok)
+		vp, ok2 := icose.Split(vtok)
+		if !ok1 || !ok2 || !bytes.Equal(pp.Payload, vp.Payload) || !bytes.Equal(pp.Protected, vp.Protected) {
+			return fmt.Sprintf("ValidateAndSign and Sign cover different bytes for the same valid claims:\n  Sign            %x\n  ValidateAndSign %x", ptok, vtok)
+		}
+		if pcErr == nil && !bytes.Equal(vp.Payload, pc) {
+			return fmt.Sprintf("the signed payload is not the encoding of the claims:\n  payload  %x\n  encoding %x", vp.Payload, pc)
+		}
 	}
 	if pcErr == nil {
 		d0, derr := psatoken.DecodeClaimsFromCBOR(pc)
